@@ -522,3 +522,34 @@ Definition delete_data_writes (m : pmgr) (rid name n b : N) : list xwrite :=
       batches ++ map XMeta (snd (op_delete_data m rid name))
     end
   end.
+
+(* ---- restart (C03): what is in memory is what was saved ---- *)
+Definition synced (m : pmgr) (img : image) : Prop := m_repos m = i_repos img.
+
+(* a merge request whose parents are all present and committed (the refused path leaves its child in
+   memory without a save: C07's finding) *)
+Definition merge_accepted (m : pmgr) (o : pop) : bool :=
+  match o with
+  | PMerge rid (p0 :: p1 :: ps) u =>
+    match aget rid (m_repos m) with
+    | Some r => snd (link_parents (aset (m_vid m) (mk_node u [] 0) (pr_nodes r)) (m_vid m) (p0 :: p1 :: ps))
+    | None => true
+    end
+  | _ => true
+  end.
+
+Fixpoint run_accepted (C : pconf) (m : pmgr) (ops : list pop) : bool :=
+  match ops with
+  | [] => true
+  | o :: r => merge_accepted m o && run_accepted C (fst (pstep C m o)) r
+  end.
+
+Fixpoint prun_img (C : pconf) (m : pmgr) (img : image) (ops : list pop) : pmgr * image :=
+  match ops with
+  | [] => (m, img)
+  | o :: r => prun_img C (fst (pstep C m o)) (apply_ws img (snd (pstep C m o))) r
+  end.
+
+(* branch -> head version as a client resolves it ("uuid:branch"): live map vs the one rebuilt from leaves *)
+Definition live_head (m : pmgr) (rid br : N) : option N :=
+  match aget rid (m_heads m) with Some h => aget br h | None => None end.
